@@ -104,6 +104,14 @@ class PointChargeBlock:
     l_a >= l_b swap AND un-swap, component selection in the shells' own order, factor -q_n per charge,
     axes (M1, L1, M2, L2, N); the Boys function handed over is the class's."""
 
+    fp = True  # cross-check: the same contract on the unmodified float64 code at sampled inputs (bounded)
+
+    def fp_shapes(self, tier):
+        sh = self.shapes(tier)
+        step = max(1, len(sh) // (6 if tier == "quick" else 24))
+        return sh[::step][:(6 if tier == "quick" else 24)]
+
+
     function = "gbasis.integrals.point_charge.PointChargeIntegral.construct_array_contraction"
     sparse = True
 
@@ -305,6 +313,14 @@ class ERIBlock:
     centre, l, components, exponents, coefficients stay together and in the order (1,2,3,4); the class's
     Boys function is handed over; out[m1,c1,m2,c2,m3,c3,m4,c4] = K[c1,c2,c3,c4,m1,m2,m3,m4]"""
 
+    fp = True  # cross-check: the same contract on the unmodified float64 code at sampled inputs (bounded)
+
+    def fp_shapes(self, tier):
+        sh = self.shapes(tier)
+        step = max(1, len(sh) // (6 if tier == "quick" else 24))
+        return sh[::step][:(6 if tier == "quick" else 24)]
+
+
     function = "gbasis.integrals.electron_repulsion.ElectronRepulsionIntegral.construct_array_contraction"
     sparse = True
 
@@ -377,18 +393,27 @@ class ERISymmetry:
     """the block routine computed independently in its eight orientations: (ab|cd) = (ba|cd) = (ab|dc) =
     (cd|ab) = ... on the real kernels (bra/ket are treated asymmetrically by the recursion)"""
 
+    fp = True  # cross-check: the same contract on the unmodified float64 code at sampled inputs (bounded)
+
+    def fp_shapes(self, tier):
+        sh = self.shapes(tier)
+        step = max(1, len(sh) // (6 if tier == "quick" else 24))
+        return sh[::step][:(6 if tier == "quick" else 24)]
+
+
     function = "gbasis.integrals.electron_repulsion.ElectronRepulsionIntegral.construct_array_contraction (orientations)"
 
     def shapes(self, tier):
         base = [[0, 0, 0, 0], [1, 0, 0, 0], [1, 1, 0, 0], [1, 0, 1, 0], [2, 0, 0, 0], [2, 0, 1, 0]] if tier == "quick" else \
                [list(l) for l in itertools.product(range(3), repeat=4) if sum(l) <= 4 and l[0] >= l[1] and l[2] >= l[3] and (l[0], l[1]) >= (l[2], l[3])]
-        return [dict(l=l) for l in base]
+        return [dict(l=l) for l in base] + [dict(l=[0, 0, 0, 0], M=[2, 2, 2, 2]), dict(l=[0, 0, 0, 0], M=[1, 2, 3, 1]), dict(l=[1, 0, 0, 0], M=[1, 2, 2, 1])]
 
     def run(self, shape, M):
         er = M.mods["gbasis.integrals.electron_repulsion"]
         ls = shape["l"]
+        Ms = shape.get("M", [1, 1, 1, 1])
         cs, es = four_centres(M, [1, 1, 1, 1])
-        shells = [_real_shell(M, "s%d" % i, ls[i], 1, 1, cs[i], es[i]) for i in range(4)]
+        shells = [_real_shell(M, "s%d" % i, ls[i], 1, Ms[i], cs[i], es[i]) for i in range(4)]
         boys = boys_stub(M)
         perms = [(0, 1, 2, 3), (1, 0, 2, 3), (0, 1, 3, 2), (1, 0, 3, 2), (2, 3, 0, 1), (3, 2, 0, 1), (2, 3, 1, 0), (3, 2, 1, 0)]
         with bind.patched((er.ElectronRepulsionIntegral, "boys_func", staticmethod(boys))):
